@@ -423,6 +423,134 @@ def r4(ctx):
                   f"{n} dotted names round-trip", f.loc, [witness] if witness else None)
 
 
+# ------------------------------------------------------------------------------------------ R5 / R6
+def _quote_flag_reads(fn: FuncInfo):
+    """{param: set(local names that hold its .quote flag) , ...} plus direct `p.quote` reads."""
+    out = {}
+    params = set(fn.params)
+    for n in walk_local(fn.node):
+        if isinstance(n, ast.Attribute) and n.attr == "quote" and isinstance(n.value, ast.Name) and n.value.id in params:
+            out.setdefault(n.value.id, set())
+        if isinstance(n, ast.Call) and dotted(n.func) == "getattr" and len(n.args) >= 2 \
+                and isinstance(n.args[0], ast.Name) and n.args[0].id in params \
+                and isinstance(n.args[1], ast.Constant) and n.args[1].value == "quote":
+            out.setdefault(n.args[0].id, set())
+    for nm, v, _ in name_stores(fn.node):
+        if v is None:
+            continue
+        for n in ast.walk(v):
+            if isinstance(n, ast.Call) and dotted(n.func) == "getattr" and len(n.args) >= 2 \
+                    and isinstance(n.args[0], ast.Name) and n.args[0].id in out \
+                    and isinstance(n.args[1], ast.Constant) and n.args[1].value == "quote":
+                out[n.args[0].id].add(nm)
+    return out
+
+
+def _cache_reads(fn: FuncInfo, param: str):
+    """AST nodes that look `param` up in a container: `param in C`, `C[param]` (load), `C.get(param)`."""
+    out = []
+    for n in walk_local(fn.node):
+        if isinstance(n, ast.Compare) and len(n.ops) == 1 and isinstance(n.ops[0], (ast.In, ast.NotIn)) \
+                and isinstance(n.left, ast.Name) and n.left.id == param and dotted(n.comparators[0]):
+            out.append((n, dotted(n.comparators[0])))
+        elif isinstance(n, ast.Subscript) and isinstance(n.ctx, ast.Load) and isinstance(n.slice, ast.Name) \
+                and n.slice.id == param and dotted(n.value):
+            out.append((n, dotted(n.value)))
+        elif isinstance(n, ast.Call) and isinstance(n.func, ast.Attribute) and n.func.attr == "get" and n.args \
+                and isinstance(n.args[0], ast.Name) and n.args[0].id == param and dotted(n.func.value):
+            out.append((n, dotted(n.func.value)))
+    return out
+
+
+@R.rule("C06-R5", floor=2, template="T-PATH (cache key completeness)",
+        desc="a quoting decision that depends on quoted_name.quote is never served from a cache keyed by the bare "
+             "name (quoted_name hashes/compares equal to str): in every preparer method / dialect helper that "
+             "reads <name>.quote and memoises on <name>, the quote-flag test dominates each cache read")
+def r5(ctx):
+    ix = ctx.index
+    base, classes = _preparer_classes(ctx)
+    cands = []
+    for cls in classes:
+        cands += list(cls.methods.values())
+    for m in ix.all_modules():
+        if m.relpath.startswith("dialects/") and m.relpath.endswith("/base.py"):
+            cands += [f for f in m.functions.values() if f.cls is None]
+    for fn in sorted(cands, key=lambda f: f.key):
+        flags = _quote_flag_reads(fn)
+        for param, holders in sorted(flags.items()):
+            reads = _cache_reads(fn, param)
+            if not reads:
+                continue
+            ctx.functions_analysed.add(fn.key)
+            g = ctx.cfg(fn)
+            verdicts = {}
+            for node, cache in reads:
+                key = f"{fn.key}:{cache}[{param}]"
+                bad = verdicts.get(key)
+                nodes = g.nodes_containing(node)
+                ctx.require(nodes, f"{key}: cache read not found in the CFG")
+                for nid in nodes:
+                    ok = False
+                    for test, pol in g.edge_guards(nid):
+                        mentions = False
+                        for a in ast.walk(test):
+                            if isinstance(a, ast.Attribute) and a.attr == "quote" and isinstance(a.value, ast.Name) and a.value.id == param:
+                                mentions = True
+                            if isinstance(a, ast.Name) and a.id in holders:
+                                mentions = True
+                        if not mentions:
+                            continue
+                        is_none_test = isinstance(test, ast.Compare) and len(test.ops) == 1 and isinstance(test.ops[0], ast.Is) \
+                            and isinstance(test.comparators[0], ast.Constant) and test.comparators[0].value is None
+                        if (is_none_test and pol) or (not is_none_test and not pol):
+                            ok = True
+                    if not ok:
+                        bad = g.nodes[nid].describe()
+                verdicts[key] = bad
+            for key, bad in sorted(verdicts.items()):
+                cache = key.rsplit(":", 1)[1].split("[")[0]
+                if bad:
+                    ctx.violation(key, f"`{cache}` is read with the bare `{param}` as key on a path where `{param}.quote` "
+                                       "has not been ruled out: a quoted_name(.., quote=True/False) equal to a cached plain "
+                                       "string gets the cached plain-string answer (history dependent quoting)", fn.loc, [bad])
+                else:
+                    ctx.ok(key, "cache read only after the quote flag was found unset")
+
+
+@R.rule("C06-R6", floor=3, template="T-SIBLING (predicate agreement)",
+        desc="Dialect.normalize_name / denormalize_name fold case exactly for names that quote() would leave "
+             "unquoted: they consult the same predicate (`_requires_quotes`) that IdentifierPreparer.quote uses")
+def r6(ctx):
+    ix = ctx.index
+    q = ctx.func(f"{PREP}.quote")
+    preds = {c.func.attr for c in calls_in(q.node)
+             if isinstance(c.func, ast.Attribute) and dotted(c.func.value) == "self" and c.func.attr.startswith("_requires_quotes")}
+    ctx.require(len(preds) == 1, f"IdentifierPreparer.quote: expected one _requires_quotes* predicate, found {sorted(preds)}")
+    pred = next(iter(preds))
+    ctx.ok(q.key + ":predicate", f"quote() decides with self.{pred}()")
+    dd = ix.cls("engine/default.py::DefaultDialect")
+    for cls in [dd] + sorted(ix.subclasses(dd), key=lambda c: c.key):
+        for nm in ("normalize_name", "denormalize_name"):
+            f = cls.methods.get(nm)
+            if f is None:
+                continue
+            ctx.functions_analysed.add(f.key)
+            used = [c for c in calls_in(f.node) if isinstance(c.func, ast.Attribute) and c.func.attr.startswith("_requires_quotes")]
+            if not used:
+                # an override that does not fold by quoting rules at all (delegation) is outside this relation
+                if any(isinstance(c.func, ast.Attribute) and c.func.attr == nm for c in calls_in(f.node)):
+                    ctx.ok(f.key, "delegates", nontrivial=False)
+                    continue
+                ctx.violation(f.key, f"{nm} folds case without consulting the preparer's {pred}()", f.loc)
+                continue
+            wrong = [unparse(c.func) for c in used if c.func.attr != pred or not (dotted(c.func.value) or "").endswith("identifier_preparer")]
+            ctx.check(not wrong, f.key,
+                      f"{nm} decides case folding with `{wrong}`, but quote() decides with `{pred}`: a name that is "
+                      "always rendered quoted (reserved word, illegal initial character) is case-folded as if it were "
+                      "rendered bare, so the normalised name denotes a different object",
+                      f"identifier_preparer.{pred}(lower-cased name)", f.loc)
+
+
 # ------------------------------------------------------------------------------------------ self test
 R.mutant("r1-mssql-unescape-wrong-char", "dialects/mssql/base.py",
          sub('        return value.replace("]]", "]")\n', '        return value.replace("[[", "[")\n'), "C06-R1")
@@ -459,3 +587,18 @@ R.mutant("benign-rename-local", COMP,
              "        low = value.lower()\n        return (\n            value[0] in self.illegal_initial_characters\n            or low in self.reserved_words\n            or (low != value)\n            or not self.legal_characters.match(str(value))\n"), None)
 R.mutant("benign-escape-split-statements", "dialects/mssql/base.py",
          sub('        return value.replace("]", "]]")\n', '        doubled = "]" * 2\n        value = value.replace("]", doubled)\n        return value\n'), None)
+R.mutant("r5-mssql-cache-before-quote-flag", "dialects/mssql/base.py",
+         sub("    if isinstance(schema, quoted_name) and schema.quote:\n        return None, schema\n\n    if schema in _memoized_schema:\n        return _memoized_schema[schema]\n",
+             "    if schema in _memoized_schema:\n        return _memoized_schema[schema]\n\n    if isinstance(schema, quoted_name) and schema.quote:\n        return None, schema\n"), "C06-R5")
+R.mutant("r5-quote-cache-before-force", COMP,
+         sub('        force = getattr(ident, "quote", None)\n\n        if force is None:\n            if ident in self._strings:\n                return self._strings[ident]\n',
+             '        force = getattr(ident, "quote", None)\n\n        if ident in self._strings:\n            return self._strings[ident]\n        if force is None:\n            if ident in self._strings:\n                return self._strings[ident]\n'), "C06-R5")
+R.mutant("r6-normalize-illegal-chars-only", "engine/default.py",
+         sub("        elif name_upper == name and not (\n            self.identifier_preparer._requires_quotes\n        )(name_lower):",
+             "        elif name_upper == name and not (\n            self.identifier_preparer._requires_quotes_illegal_chars\n        )(name_lower):"), "C06-R6")
+R.mutant("r6-denormalize-no-predicate", "engine/default.py",
+         sub("        elif name_lower == name and not (\n            self.identifier_preparer._requires_quotes\n        )(name_lower):\n            name = name_upper",
+             "        elif name_lower == name:\n            name = name_upper"), "C06-R6")
+R.mutant("benign-normalize-local-alias", "engine/default.py",
+         sub("        elif name_upper == name and not (\n            self.identifier_preparer._requires_quotes\n        )(name_lower):",
+             "        elif name_upper == name and not self.identifier_preparer._requires_quotes(\n            name_lower\n        ):"), None)
